@@ -67,6 +67,10 @@ pub fn gen09(tier: &str, rng: &mut Rng) -> Vec<Spec> {
     let t = tier == "thorough"; let mut v = vec![];
     let s3: Vec<String> = ["0", "1", "2"].iter().map(|s| s.to_string()).collect();
     let s4: Vec<String> = ["0", "1", "nan", "2"].iter().map(|s| s.to_string()).collect();
+    // soak: more samples than a 16-bit counter can hold (one zig-zag run each; the thorough tier adds an irregular one)
+    for kind in ["slopes", "peaks", "peaks_slopes"] { for j in 0..(if t { 2 } else { 1 }) {
+        let xs: Vec<String> = (0..70_000u32).map(|k| if kind == "peaks_slopes" { ((k + j) % 3).to_string() } else if j == 0 { (k % 2).to_string() } else { ((k * 7 + k / 5) % 4).to_string() }).collect();
+        v.push(Spec::new(kind).with("xs", xs.join(","))); } }
     for kind in ["slopes", "peaks", "peaks_slopes"] {
         for l in 0..=(if t { 9 } else { 8 }) { for xs in crate::util::all_seqs(&s3, l) { v.push(Spec::new(kind).with("xs", xs.join(","))); } }
         if kind != "peaks_slopes" { for xs in crate::util::all_seqs(&s4, if t { 7 } else { 6 }) { v.push(Spec::new(kind).with("xs", xs.join(","))); } }
